@@ -146,9 +146,26 @@ CASTS = {"trunc": ("i64", "i8"), "zext": ("i8", "i64"), "sext": ("i16", "i32"), 
          "bitcast": ("i32", "f1"), "addrspacecast": ("p0(i8)", "p1(i8)")}
 
 
+INT_BINOPS = ["add", "sub", "mul", "udiv", "sdiv", "urem", "srem", "shl", "lshr", "ashr", "and", "or", "xor"]
+FP_BINOPS = ["fadd", "fsub", "fmul", "fdiv", "frem"]
+
+
 def systematic_cases():
-    """every conversion instruction on a scalar, a fixed vector and a scalable vector operand: present in every run"""
+    """every conversion and every binary instruction on a scalar, a fixed vector and a scalable vector operand: present in every run"""
     out = []
+    for op in INT_BINOPS + FP_BINOPS:
+        e = "i32" if op in INT_BINOPS else "f2"
+        for t in (e, "V4(%s)" % e, "S2(%s)" % e):
+            out.append(("add:" + op, [t, t]))
+    for k, tys in (("fneg", ["f1"]), ("icmp", ["i64", "i64"]), ("fcmp", ["f2", "f2"]), ("select", ["i1", "i32", "i32"])):
+        out.append((k, tys))
+        for sc, n in (("V", 4), ("S", 2)):
+            w = lambda t: "%s%d(%s)" % (sc, n, t)
+            out.append((k, [w(t) for t in tys]))
+    for sc in ("V", "S"):
+        out.append(("extractelement", ["%s4(i32)" % sc, "i32"]))
+        out.append(("insertelement", ["%s4(i32)" % sc, "i32", "i64"]))
+        out.append(("shufflevector", ["%s4(i32)" % sc, "%s4(i32)" % sc, "%s2(i32)" % sc]))
     for op, (a, b) in sorted(CASTS.items()):
         out.append(("cast:" + op, [a, b]))
         for sc, n in (("V", 4), ("S", 2)):
@@ -165,6 +182,7 @@ def gen(tier, rng, harness, driver):
         args = " ".join(ts)
         lines.append(("typ.ir %s %s" % (k, args)).rstrip())
         lines.append(("typ.asm %s %s" % (k, args)).rstrip())
+        lines.append(("typ.expr %s %s" % (k, args)).rstrip())
         if sp not in ("illtyped", "unknown-op"):
             lines.append(("!typ.ok %s %s" % (k, args)).rstrip() + " " + sp)
             lines.append(("!typ.use %s %s" % (k, args)).rstrip() + " " + sp)
